@@ -1,17 +1,19 @@
 (* Model/Pipeline.v — the whole quantize() pipeline as one function of
    (model, recipe-manager state, statistics): plan generation (with the
    buffer-sharing check), instruction generation, graph transformation.
-   Parameter equality classes are syntactic equality of provenance terms.
-   No proofs here. *)
+   Parameter equality classes: [mk_cls] (see Model/Plan.v).  No proofs here. *)
 From VF Require Import Base.Prelude Gen.Enums Gen.Configs Gen.Scopes Model.Recipe Model.Check
      Model.Graph Model.Plan Model.Insts Model.Perform.
 
-Definition pipeline (matches : Z -> Z -> bool) (rules : state)
+Definition pipeline_cls (mk_cls : list pterm -> pterm -> Z)
+           (matches : Z -> Z -> bool) (rules : state)
            (scope_id : Z -> list stok -> Z) (m : model)
            (scopes : list (list bool)) (stats : option (list name_t))
   : res (model * list tplan) :=
-  r <- plan_checked matches rules scope_id m scopes stats ;;
-  let cls := term_class (terms_of (fst r)) in
+  r <- plan_checked_cls mk_cls matches rules scope_id m scopes stats ;;
+  let cls := mk_cls (terms_of (fst r)) in
   tis <- insts_of_params m (map (to_ttp cls) (fst r)) ;;
   m' <- transform_graph m tis ;;
   Ok (m', fst r).
+
+Definition pipeline := pipeline_cls term_class.
